@@ -76,6 +76,13 @@ def fit_oracles(m, X, strict_cols=()):
             off2 = np.delete(M[:, i], i)
             if np.any(off != 0) or np.any(off2 != 0) or abs(M[i, i]) > eps + 1e-12:
                 bad.append(('constant-zero', f'constant column {c!r}: row {M[i, :].tolist()}'))
+    # the statement on the OUTPUT alone: a matrix that is returned without the ridge must not be numerically singular by the
+    # library's documented criterion (cond > 1/DBL_EPSILON).  Deterministic in M, so the unchanged code can never trip it.
+    has_ridge = all(abs(M[i, i] - 1.0) > 0.25 * eps or const[c] and abs(M[i, i]) > 0.25 * eps for i, c in enumerate(cols))
+    cond_M = float(np.linalg.cond(M))
+    if not has_ridge and cond_M > 1.0 / DBL_EPS:
+        bad.append(('singular-not-regularised', f'fitted matrix has no ridge (diagonal {np.diag(M).tolist()}) but is numerically singular: '
+                                                f'cond = {cond_M:.4g} > 1/DBL_EPSILON, smallest eigenvalue {float(ev.min()):.3g}'))
     E = R + (np.identity(d) * eps if ridge_expected else 0.0)
     if ridge_ambiguous and np.abs(M - E).max() > 1e-8:
         E = R + (np.identity(d) * eps if not ridge_expected else 0.0)
@@ -188,6 +195,11 @@ def designed_tables(rng):
     out.append((3, 40, ['base', 'offset', 'mix']))
     out.append((4, 30, ['base', 'tiny', 'offset', 'mix']))
     out.append((2, 25, ['offset', 'tiny']))
+    # perfectly correlated, non-identical columns: the correlation rounds to just below 1 (cond ~ 7e15 > 1/DBL_EPSILON)
+    out.append((2, 20, ['base', 'pos']))
+    out.append((2, 21, ['base', 'pos']))
+    out.append((2, 35, ['base', 'neg']))
+    out.append((3, 20, ['base', 'pos', 'mix']))
     return out
 
 
@@ -237,8 +249,8 @@ def run(ctx):
         labels = 'int' if k % 5 == 4 else 'str'
         X, kinds = G.make_table(rng, d, n, kinds, labels=labels, regular=(k % 2 == 1))
         cfg_name = cfg_names[k % len(cfg_names)]
-        if any(kk in ('offset', 'tiny') for kk in kinds):
-            cfg_name = STRICT_CFGS[k % len(STRICT_CFGS)]
+        if any(kk in ('offset', 'tiny') for kk in kinds) or 15 <= k < 19:
+            cfg_name = STRICT_CFGS[k % len(STRICT_CFGS)]      # (15..18: the perfectly-correlated designs, location-scale marginals)
         if cfg_name == 'default' and not quick and k % 18 != 0:
             cfg_name = 'class'          # the default (model selection) is slow; sampled more thinly in the thorough tier
         cols = list(X.columns)
@@ -275,6 +287,8 @@ def run(ctx):
                                'repro': repro_history(X, cfg_name, seed, container)})
         # ---- correspondence ----
         ok_capture = len(cap.ppf) == 1 and len(cap.cond) == 1
+        if bad_tr and not ok_capture:
+            continue        # the translation obligation already failed: the capture is a consequence, not a second alarm
         ctx.obligation(f'corr:capture:{k}', ok_capture, 'correspondence',
                        f'expected one norm.ppf and one np.linalg.cond call inside fit, saw {len(cap.ppf)} and {len(cap.cond)}')
         if not ok_capture or not compiled:
